@@ -82,6 +82,14 @@ def run_target(ctx, exe, target, job, runs, max_len):
                 break
         data = open(arts[0], "rb").read() if arts else b""
         res["finding"] = {"kind": kind, "where": where, "input_hex": data.hex()[:200000], "stderr": err[-3500:], "artifact": os.path.basename(arts[0]) if arts else ""}
+    # keep a share of the final corpus for the memcheck replay
+    keep = os.path.join(ctx.tmp, "keep", target)
+    os.makedirs(keep, exist_ok=True)
+    for f in sorted(glob.glob(corp + "/*"))[:ctx.pick(40, 1500)]:
+        try:
+            shutil.copy(f, os.path.join(keep, "%d-%s" % (job, os.path.basename(f))))
+        except OSError:
+            pass
     # a few corpus inputs as samples
     for f in sorted(glob.glob(corp + "/*"))[:2]:
         b = open(f, "rb").read()[:120]
@@ -153,6 +161,47 @@ def pretty_threads(ctx):
     return len(cases), found
 
 
+def memcheck_replay(ctx):
+    """Replay the kept corpus inputs through a gcc build of the same targets under valgrind memcheck (different mechanism than ASan:
+    no red zones, no quarantine limit).  Invalid reads/writes/frees with a qtlogger frame are violations; uninitialised-value reports
+    are outside the statement and only counted.  -> (inputs replayed, violations, observations)"""
+    exe = build.ensure_fuzz_replay()
+    from concurrent.futures import ThreadPoolExecutor
+
+    def one(target):
+        files = sorted(glob.glob(os.path.join(ctx.tmp, "keep", target, "*")))
+        if not files:
+            return target, 0, "", 0
+        env = core.base_env(ctx.tmp)
+        env["FUZZ_TARGET"] = target
+        out = ""
+        n = 0
+        for i in range(0, len(files), 300):
+            try:
+                p = subprocess.run(["valgrind", "--quiet", "--error-exitcode=9", "--num-callers=20", exe] + files[i:i + 300], env=env,
+                                   stdout=subprocess.PIPE, stderr=subprocess.PIPE, timeout=3 * 3600)
+                out += p.stderr.decode("utf-8", "replace")
+                n += len(files[i:i + 300])
+            except subprocess.TimeoutExpired:
+                out += "\nTIMEOUT\n"
+        return target, n, out, 0
+    with ThreadPoolExecutor(max_workers=len(TARGETS)) as ex:
+        res = list(ex.map(one, TARGETS))
+    total = 0
+    found = []
+    uninit = 0
+    for target, n, out, _ in res:
+        total += n
+        for block in re.split(r"\n==\d+== \n", out):
+            if re.search(r"Invalid (read|write|free)|Mismatched free|Jump to the invalid", block):
+                if "/src/qtlogger/" in block or "qtlogger/" in block:
+                    kind = re.search(r"(Invalid \w+|Mismatched free|Jump)", block).group(1).replace(" ", "-")
+                    found.append(("C14:memcheck:%s:%s" % (target, kind), block[-1800:], {"target": target, "input_hex": "", "memcheck": True}))
+            elif "uninitialised" in block:
+                uninit += 1
+    return total, found, uninit
+
+
 def run(ctx):
     exe = build.ensure_fuzz()
     if ctx.replay:
@@ -219,6 +268,12 @@ def run(ctx):
         ctx.violation(key, "input (%d bytes) %r... :: %s" % (len(f["input_hex"]) // 2, bytes.fromhex(f["input_hex"][:160]), f["stderr"][-1800:]), case)
         if r["execs"] == 0:
             r["execs"] = 1
+    n_mc, found_mc, uninit = memcheck_replay(ctx)
+    seen_mc = set()
+    for key, what, case in found_mc:
+        if key not in seen_mc:
+            seen_mc.add(key)
+            ctx.violation(key, what, case)
     n_pt, found_pt = pretty_threads(ctx)
     for key, what, case in found_pt:
         ctx.violation(key, what, case)
@@ -234,6 +289,7 @@ def run(ctx):
         "per_target": per,
         "observations_slow_or_oom": observations,
         "pretty_formatter_many_threads_cases": n_pt,
+        "memcheck_replayed_inputs": n_mc, "memcheck_uninitialised_value_reports_not_judged": uninit,
         "scope": "patterns asking for a field of >= 100000 characters (six consecutive digits) are rejected by the target: resource exhaustion "
                  "as requested, not memory unsafety",
     }
